@@ -8,6 +8,10 @@ impl Story {
 
         self.get_state_mut().force_end();
 
+        // The calls that are abandoned may have been made from the middle of
+        // an expression: drop the operands that were waiting for their result.
+        self.get_state_mut().evaluation_stack.clear();
+
         Ok(())
     }
 
